@@ -340,6 +340,20 @@ LawRpVerdict(c, e) ==
   ELSE IF ~MR!SameElement(D(e.x_after), x) \/ ~MR!SameElement(D(e.y_after), y) THEN "operand_or_earlier_result_was_modified"
   ELSE "ok"
 
+\* C12 for operators with IRRATIONAL symbolic results (norm, normalized, sqrt, ** 0.5): the symbolic result is not encodable,
+\* but every way of evaluating it at sigma (positional / keyword call, sympy substitution) must agree, blade by blade, with
+\* the numeric operator applied to the substituted operands (assignments are chosen so that the values are rational)
+SubstNumVerdict(c, e) ==
+  LET ref == CHOOSE i \in DOMAIN e.evals : e.evals[i].how = "numeric_operator"
+      R == DecodeMV(c, "rat", e.evals[ref].res)
+      bad(ev) == ev.raised # "" \/ ~MR!SameElement(DecodeMV(c, "rat", ev.res), R)
+  IN
+  IF e.evals[ref].raised # "" THEN "ok"                     \* outside the domain of the numeric operator
+  ELSE IF \E i \in DOMAIN e.evals : e.evals[i].how = "call_positional" /\ bad(e.evals[i]) THEN "positional_call_differs_from_numeric_operator"
+  ELSE IF \E i \in DOMAIN e.evals : e.evals[i].how = "call_keyword" /\ bad(e.evals[i]) THEN "keyword_call_differs_from_numeric_operator"
+  ELSE IF \E i \in DOMAIN e.evals : e.evals[i].how = "subs" /\ bad(e.evals[i]) THEN "sympy_subs_differs_from_numeric_operator"
+  ELSE "ok"
+
 Verdict(e) ==
   IF ~EventWF(e) THEN "result_not_well_formed" ELSE
   CASE e.kind = "op" -> OpEventVerdict(CC, e)
@@ -356,6 +370,7 @@ Verdict(e) ==
     [] e.kind = "relabel" -> RelabelVerdict(e)
     [] e.kind = "mix" -> MixVerdict(e)
     [] e.kind = "subst" -> SubstVerdict(CC, e)
+    [] e.kind = "substnum" -> SubstNumVerdict(CC, e)
     [] e.kind = "call" -> CallEventVerdict(CC, e)
     [] e.kind = "opc" -> OpEventVerdict(Compile(BitCfg(e.u)), e)
     [] OTHER -> "unknown_event_kind"
